@@ -374,6 +374,10 @@ func main() {
 		sp(&ctor{name: "CloDep_K2_" + sfx, closure: "dep_K2", deps: P("K0", "K1"), outs: simpleOut("K2"), hasErr: true})
 		sp(&ctor{name: "CloIn_K3_" + sfx, closure: "in_K3", inStyle: true, deps: []dep{mkDep("K0", "FPlain"), mkDep("K1", "FOpt")}, outs: simpleOut("K3")})
 	}
+	// a service that needs no disposal, built from a parameter object whose first field is another
+	// such service and whose second field is optional (and registered)
+	sp(&ctor{name: "InOptAfter_S7", inStyle: true, deps: []dep{mkDep("S5", "FPlain"), mkDep("S6", "FOpt")}, outs: simpleOut("S7")})
+	sp(&ctor{name: "InOptAfter_S4", inStyle: true, deps: []dep{mkDep("S5", "FPlain"), mkDep("S6", "FOpt")}, outs: simpleOut("S4")})
 	writeTypes()
 	writeCtors()
 }
